@@ -76,6 +76,45 @@ Proof.
   unfold spec_full. destruct (spec_sums ms) as [[a b] c]. reflexivity.
 Qed.
 
+(* ------------------------------------------------ lines psutil must ignore *)
+(* the full line set of a current kernel is inside the grammar, whatever the values of the
+   lines that are not figures (SwapPss, Pss_Anon/File/Shmem, Pss_Dirty, *Hugetlb, Locked,
+   LazyFree, AnonHugePages, *PmdMapped, KernelPageSize, MMUPageSize, ...) *)
+Theorem k6_body_wf fv d fl :
+  (forall f, is_dec (fv f) = true) -> (forall i, is_dec (d i) = true) ->
+  fl <> [] -> forallb flag_ok fl = true -> wf_body (k6_lines fv d fl) = true.
+Proof.
+  intros Hf Hd Hne Hfl. unfold wf_body, k6_lines. cbn [forallb wf_line].
+  rewrite !Hf, !Hd. destruct fl as [|f0 fr]; [congruence|]. rewrite Hfl. reflexivity.
+Qed.
+
+(* ... so they cannot change uss / pss / swap: the roll-up of a current kernel *)
+Theorem k6_rollup_ignores_decoys hdr fv d :
+  (forall f, is_dec (fv f) = true) -> (forall i, is_dec (d i) = true) ->
+  (match hdr with c :: _ => is_hex c | [] => false end) = true -> contains 10 hdr = false ->
+  parse_rollup (k_rollup {| ru_hdr := hdr; ru_lines := k6_rollup_lines fv d |}) =
+  Val ((dec_val (fv FPrivateClean) + dec_val (fv FPrivateDirty) + dec_val (fv FPrivateHugetlb)) * 1024,
+       dec_val (fv FPss) * 1024, dec_val (fv FSwap) * 1024).
+Proof.
+  intros Hf Hd Hh Hn. rewrite rollup_parse; [reflexivity|].
+  unfold wf_rollup, k6_rollup_lines. cbn [ru_hdr ru_lines forallb wf_line].
+  rewrite Hh, Hn, !Hf, !Hd. reflexivity.
+Qed.
+
+(* ... and the listing: whatever the other lines say, the sums are those of the figures *)
+Theorem k6_smaps_ignores_decoys ex ms :
+  (forall m, In m ms -> wf_header ex m = true /\
+     exists fv d fl, m_lines m = k6_lines fv d fl /\ (forall f, is_dec (fv f) = true) /\
+                     (forall i, is_dec (d i) = true) /\ fl <> [] /\ forallb flag_ok fl = true) ->
+  parse_smaps Alive (FContent (k_smaps ms)) = Val (spec_sums ms)
+  /\ memory_maps Alive ex (FContent (k_smaps ms)) = Val (map spec_row ms).
+Proof.
+  intros H. assert (W : forallb (wf_kernel ex) ms = true).
+  { apply forallb_forall. intros m Hm. destruct (H m Hm) as (Hh & fv & d & fl & El & Hf & Hd & Hne & Hfl).
+    unfold wf_kernel. rewrite Hh, El. now apply k6_body_wf. }
+  split; [now apply (parse_smaps_spec ex)|now apply maps_ungrouped].
+Qed.
+
 (* ------------------------------------------------ the defect repaired by /repo commit c15178c *)
 Definition wit_lines : list kline :=
   [LFig FSize 0 (bs "4"); LFig FRss 0 (bs "4"); LFig FPss 0 (bs "4"); LFig FSharedClean 0 (bs "0");
